@@ -1,6 +1,7 @@
 """Per-property run plans for ./check: which harness flavours run, how many shards, and the text that goes
 into the evidence file (rule, assumptions).  Flavours: debug (opt-level 1, overflow checks + debug assertions),
-release (opt-level 3, no overflow checks), miri, asan, valgrind (memcheck on the release binary)."""
+release (opt-level 3, no overflow checks), opt0 (opt-level 0: nothing inlined), miri, asan, valgrind (memcheck on
+the release binary)."""
 
 BOTH_Q = [{"flavor": "debug", "shards": 4}, {"flavor": "release", "shards": 4}]
 BOTH_T = [{"flavor": "debug", "shards": 8}, {"flavor": "release", "shards": 8}]
@@ -141,8 +142,8 @@ PLANS = {
                 "an otherwise unchanged register file; are_enabled = IF; enable_and_hlt: at the sti trap the next byte is hlt and the "
                 "two events are consecutive. distinct_nontrivial counts distinct (profile, initial IF, tree depth, node-count class) tuples.",
         "assumptions": COMMON_ASSUME + ["the monitor sees instructions and operands, not interrupt delivery; closures leave the flag as they found it (as the property states)"],
-        "quick": [{"flavor": "debug", "shards": 2}, {"flavor": "release", "shards": 2}],
-        "thorough": BOTH_T,
+        "quick": [{"flavor": "debug", "shards": 2}, {"flavor": "release", "shards": 2}, {"flavor": "opt0", "shards": 2}],
+        "thorough": [{"flavor": "debug", "shards": 6}, {"flavor": "release", "shards": 6}, {"flavor": "opt0", "shards": 4}],
     },
     "C18": {
         "level": "exploration",
@@ -154,8 +155,8 @@ PLANS = {
                 "(profile, width, access kind, port class) tuples.",
         "assumptions": COMMON_ASSUME + ["the device model stands in for hardware: the value 'the device supplied' is the value the monitor put into AL/AX/EAX"],
         "exhaustive_whole": False,
-        "quick": [{"flavor": "debug", "shards": 4}, {"flavor": "release", "shards": 4}],
-        "thorough": BOTH_T,
+        "quick": [{"flavor": "debug", "shards": 4}, {"flavor": "release", "shards": 4}, {"flavor": "opt0", "shards": 4}],
+        "thorough": [{"flavor": "debug", "shards": 6}, {"flavor": "release", "shards": 6}, {"flavor": "opt0", "shards": 4}],
     },
 
     "C11": {
